@@ -121,6 +121,10 @@ func (wgb *WeightedAuthorizationModelGraphBuilder) parseTupleToUserset(wg *Weigh
 		return fmt.Errorf("%w: Model cannot be parsed. No type and relation link exists for tupleset relation %s and computed relation %s", ErrInvalidModel, tuplesetRelation, computedRelation)
 	}
 
+	// parent types of the tupleset that already have their edge for THIS tuple to userset: the same tuple to
+	// userset written twice under one operator (x from parent but not x from parent) gets its own edges
+	seenTuplesetTypes := make(map[string]struct{}, len(directlyRelated))
+
 	for _, relatedType := range directlyRelated {
 		tuplesetType := relatedType.GetType()
 
@@ -132,7 +136,7 @@ func (wgb *WeightedAuthorizationModelGraphBuilder) parseTupleToUserset(wg *Weigh
 		nodeSource := wg.GetOrAddNode(rewrittenNodeName, rewrittenNodeName, SpecificTypeAndRelation)
 		typeTuplesetRelation := typeDef.GetType() + "#" + tuplesetRelation
 
-		if wg.HasEdge(parentNode, nodeSource, TTUEdge, typeTuplesetRelation) {
+		if _, seen := seenTuplesetTypes[tuplesetType]; seen {
 			// we don't need to do any condition update, only de-dup the edge. In case of TTU
 			// the direct relation will have the conditions
 			// for example, in the case of
@@ -145,8 +149,15 @@ func (wgb *WeightedAuthorizationModelGraphBuilder) parseTupleToUserset(wg *Weigh
 			continue
 		}
 
+		seenTuplesetTypes[tuplesetType] = struct{}{}
+
 		// new edge from "xxx#admin" to "yyy#viewer" tuplesetRelation on "yyy#parent"
-		wg.UpsertEdge(parentNode, nodeSource, TTUEdge, typeTuplesetRelation, relatedType.GetCondition())
+		var conditions []string
+		if relatedType.GetCondition() != "" {
+			conditions = []string{relatedType.GetCondition()}
+		}
+
+		wg.AddEdge(parentNode.uniqueLabel, nodeSource.uniqueLabel, TTUEdge, typeTuplesetRelation, conditions)
 	}
 	return nil
 }
